@@ -1,5 +1,6 @@
 import Hgxv.Proofs.C03Cor
 import Hgxv.Proofs.C03Ref
+import Hgxv.Proofs.C03Keep
 /-! # C03 - TemporalHypergraph keeps (time, hyperedge) records; windows / snapshots / aggregate agree
 
 Model: `Hgxv/Model/C03.lean` (mirror of `hypergraphx/core/temporal_hypergraph.py` after the `fix:` commits of branch
@@ -205,6 +206,28 @@ theorem C03_reinsert (s : Store) (raw : List Nat) (t : Nat) (w : Option Int) (md
     (addEdge s raw (.int t) w md).1.emeta = AL.set s.emeta id (md.getD []) :=
   addEdge_existing s raw t w md id hget hok
 
+/-- **`remove_node(n, keep_edges=True)`, record by record** (the fold of delete + re-insert that the code runs, in closed
+form, independent of the order in which the incident records are processed).  On every reachable object, for a node `n`:
+the call succeeds; no record containing `n` is left; every record `k ∋ n` whose node set minus `n` is non-empty ends up
+under `shrinkKey n k = (time, node set minus n)` MERGED with the record that was already there (`Spec.recVal`: weighted -
+the two weights add, unweighted - the weight stays 1; the moved record's metadata wins; without a record there the moved
+weight and metadata are kept); a record `{n}` is dropped; every other record (no `n`, no record shrinking onto it) is
+unchanged.  With `C03_inv` / `C03_incident_once` the merged record is ONE record with one id, listed once per node.
+`abs` is the map of the object (`C03_content_is_map`). -/
+theorem C03_remove_node_keep (s : Store) (hs : Reachable s) (n : Node) (hn : (get? s.nmeta n).isSome) :
+    (removeNode s n true).2 = .ok ∧
+    (abs (removeNode s n true).1).weighted = s.weighted ∧
+    (∀ k', n ∈ k'.2 → get? (abs (removeNode s n true).1).recs k' = none) ∧
+    (∀ k', n ∉ k'.2 → (∀ k, (get? (abs s).recs k).isSome → n ∈ k.2 → shrinkKey n k = k' → k'.2 = []) →
+      get? (abs (removeNode s n true).1).recs k' = get? (abs s).recs k') ∧
+    (∀ k w md, get? (abs s).recs k = some (w, md) → n ∈ k.2 → (shrinkKey n k).2 ≠ [] →
+      get? (abs (removeNode s n true).1).recs (shrinkKey n k) =
+        some (Spec.recVal s.weighted (get? (abs s).recs (shrinkKey n k)) w md)) := by
+  have hinv := reachable_inv hs
+  obtain ⟨h1, h2⟩ := removeNode_abs s hinv n true
+  rw [h1, h2]
+  exact removeNode_keep_spec (abs s) (specWF_abs s hinv) n hn
+
 /-! ## non-vacuity: the hypotheses hold on a concrete non-trivial history (`demoOps`: 13 calls with a re-insertion in
 permuted node order, two rejected times, a copy, a removal, a shrink-merge by `remove_node(keep_edges=True)`, a weighted
 batch) and the conclusions are the expected concrete values -/
@@ -225,3 +248,10 @@ example : (get? demoStore.adj 1).isSome = true := by decide
 example : get? (specRun [] demoOps) 0 = some (abs demoStore) := by decide
 example : (abs demoStore).recs = [((0, [1, 2]), (8, [])), ((3, [1, 2]), (12, [])), ((4, [1, 5]), (4, [])), ((5, [2, 3]), (2, []))] := by decide
 example : Spec.answer (abs demoStore) (.degree 1 none none) = .int 3 ∧ answer demoStore (.degree 1 none none) = .int 3 := by decide
+example : Reachable keepStore := ⟨keepOps, by decide, 0, by decide⟩
+example : (get? keepStore.nmeta 1).isSome = true := by decide
+example : (abs keepStore).recs =
+    [((5, [1, 2, 3]), (8, [(0, 1)])), ((5, [2, 3]), (12, [])), ((6, [1]), (4, [])), ((6, [1, 4]), (2, []))] := by decide
+example : shrinkKey 1 (5, [1, 2, 3]) = (5, [2, 3]) ∧ shrinkKey 1 (6, [1]) = (6, []) := by decide
+example : (abs (removeNode keepStore 1 true).1).recs = [((5, [2, 3]), (20, [(0, 1)])), ((6, [4]), (2, []))] := by decide
+example : answer (removeNode keepStore 1 true).1 (.incident 2 none none) = .recs [(5, [2, 3])] := by decide
